@@ -181,6 +181,11 @@ def reprEq (a b : QRepr) : Bool :=
 /-- `PartialEq for RBig`: structural -/
 def rbigEq (a b : QRepr) : Bool := a.num == b.num && a.den == b.den
 
+/-- `Hash for RBig`: `numerator.hash(state); denominator.hash(state)` — the integer feeds of the two
+    components, in this order -/
+def QRepr.hashFeed (W : Nat) (q : QRepr) : HashFeed × HashFeed :=
+  ((sOfInt W q.num).hashFeed W, (SRepr.mk false (ofNat W q.den)).hashFeed W)
+
 /-- `repr_cmp::<false>`.  Step 3's second test is written in the code as
     `rhs_bits < lhs_bits - 1`, which is the same condition as the first test, hence dead. -/
 def reprCmp (a b : QRepr) : Ordering :=
